@@ -3,7 +3,6 @@
 from __future__ import annotations
 
 import ast
-import copy
 from typing import Dict, List, Optional, Set, Tuple
 
 from ..astutil import arg_of, call_name, calls, enclosing_loops, guards, kwarg, last_attr, stmt_key, txt, walk_local
@@ -12,6 +11,7 @@ from ..flow import bound_from
 from ..index import AnalysisError, ClassInfo, dotted
 from ..kernel import OutsideFragment, affine, decide, parse, rename
 from ..report import Ctx
+from ..astutil import clone
 
 PROP = "C06"
 REC = "antismash/common/secmet/record.py"
@@ -47,7 +47,7 @@ FAMILIES = {
 
 def _normalise(func: ast.FunctionDef, mapping: Dict[str, str]) -> List[str]:
     """ body statements (docstring and assert messages dropped) with family names replaced """
-    node = copy.deepcopy(func)
+    node = clone(func)
     body = [s for s in node.body if not (isinstance(s, ast.Expr) and isinstance(s.value, ast.Constant))]
     out = []
     for stmt in body:
